@@ -125,14 +125,23 @@ def crate_dir(crate):
             "grin_api": "api", "grin_servers": "servers"}[crate]
 
 
+def module_path(target):
+    """crate-relative module path of a source file: core/src/core/pmmr/segment.rs -> core::pmmr::segment"""
+    parts = target.split("/")
+    i = parts.index("src")
+    mods = parts[i + 1:]
+    mods[-1] = mods[-1][:-3]
+    if mods[-1] in ("lib", "mod", "main"):
+        mods = mods[:-1]
+    return "::".join(mods)
+
+
 def prepare_scratch(unit_files, profile):
     """Copy /repo's working tree and inject.  Returns (dir, sources-record)."""
     d = new_scratch("kani")
     copy_repo(d)
     with open(os.path.join(d, "Cargo.toml"), "a") as f:
         f.write('\n[patch.crates-io]\nbacktrace = { path = "%s/vendor/backtrace-0.3.76" }\n' % VERIF)
-        if profile == "release-arith":
-            f.write("\n[profile.dev]\noverflow-checks = false\n")
     sources = []
     by_target = {}
     crates = set()
@@ -230,6 +239,8 @@ def parse_terse(txt):
                 active = None
             if "CBMC timed out" in ln or "timed out" in ln.lower():
                 r["status"] = "TIMEOUT"
+            if "run out of memory" in ln:
+                r["status"] = "OUT_OF_MEMORY"
         i += 1
     return res
 
@@ -267,6 +278,8 @@ def run_units(prop, unit_files, tier, jobs=None, harness_timeout=None, only=None
                         continue
                     if tier == "quick" and meta["tier"] != "quick":
                         continue
+                    meta = dict(meta)
+                    meta["full"] = module_path(u.target) + "::verif_kani_%s::%s" % (u.name, h)
                     hs[h] = meta
             if not hs:
                 continue
@@ -274,10 +287,8 @@ def run_units(prop, unit_files, tier, jobs=None, harness_timeout=None, only=None
             to = harness_timeout or (600 if tier == "quick" else 3600)
             cmd = ["cargo", "kani", "-p", crate] + KANI_FLAGS + [
                 "--output-format=terse", "-j", str(j), "--harness-timeout", "%ds" % to, "--exact"]
-            # --exact needs full names; we use suffix filters instead (names are unique by design)
-            cmd.remove("--exact")
             for h in sorted(hs):
-                cmd += ["--harness", h]
+                cmd += ["--harness", hs[h]["full"]]
             logp = os.path.join(VERIF, "logs", "%s-%s-%s-%s.log" % (prop, crate, profile, tier))
             os.makedirs(os.path.dirname(logp), exist_ok=True)
             log("[kani] %s: %d harnesses on %s (%s), -j %d" % (prop, len(hs), crate, profile, j))
@@ -338,13 +349,30 @@ def run_units(prop, unit_files, tier, jobs=None, harness_timeout=None, only=None
                 elif r["status"] == "FAILED":
                     u.obligations += r["checks"]
                     u.discharged += r["checks"] - r["failed"]
+                    wraps = []
+                    if profile == "release-arith":
+                        # Kani always checks arithmetic overflow (debug semantics) and cuts the path
+                        # after it.  C11 is stated for release arithmetic where a wrap is not a
+                        # panic: such checks are recorded, not reported (DESIGN 2.1).
+                        wraps = [x for x in r["fails"] if re.match(r"attempt to .* with overflow", x[0])]
+                        for dsc, loc in wraps:
+                            k = "%s @ %s" % (dsc, loc_key(loc))
+                            u.extra.setdefault("arithmetic_wraps_not_explored_beyond", [])
+                            if k not in u.extra["arithmetic_wraps_not_explored_beyond"]:
+                                u.extra["arithmetic_wraps_not_explored_beyond"].append(k)
+                        u.obligations -= len(wraps)
                     real = [(dsc, loc) for dsc, loc in r["fails"]
-                            if "unwinding assertion" not in dsc]
+                            if "unwinding assertion" not in dsc and (dsc, loc) not in wraps]
                     unw = [x for x in r["fails"] if "unwinding assertion" in x[0]]
                     if unw and not real:
                         undecided.append("harness %s: unwinding bound too small (%s)" % (h, unw[0][1]))
                     if not r["fails"]:
                         undecided.append("harness %s FAILED without listed checks (see %s)" % (h, logp))
+                    if wraps and not real and not unw:
+                        u.discharged = u.discharged  # all remaining checks passed
+                        if len(u.samples) < 3:
+                            u.samples.append({"harness": full, "checks": r["checks"] - len(wraps),
+                                              "status": "SUCCESSFUL (arithmetic wraps recorded)", "time_s": r["time"]})
                     for dsc, loc in real:
                         f = {"unit": u.name, "harness": h, "harness_full": full,
                              "key": "%s :: %s :: %s" % (h, dsc, loc_key(loc)),
@@ -360,40 +388,57 @@ def run_units(prop, unit_files, tier, jobs=None, harness_timeout=None, only=None
 
 
 def replay(failure, scratch, out_path):
-    """Re-run the failing harness with concrete playback, then run the generated unit test
-    natively (cargo kani playback) against the real code in the scratch copy.
-    Returns (reproduced: bool|None, text)."""
-    h = failure["harness"]
+    """Re-run the failing harness with concrete playback (print mode), splice the generated
+    unit test into the harness module of the scratch copy, then run it natively
+    (cargo kani playback) against the real code.  Returns (reproduced: bool|None, text)."""
     crate = failure["crate"]
+    full = failure["harness_full"]
     cmd = ["cargo", "kani", "-p", crate] + KANI_FLAGS + ["-Z", "concrete-playback",
-          "--concrete-playback=inplace", "--output-format=terse", "--harness", h]
+          "--concrete-playback=print", "--output-format=terse", "--exact", "--harness", full]
     rc, txt, _ = run(cmd, cwd=scratch, timeout=3600)
-    m = re.search(r"- (kani_concrete_playback_\w+)\.", txt)
-    report = ["# Replay of Kani counterexample", "property-harness: %s" % failure["harness_full"],
+    report = ["# Replay of Kani counterexample", "property-harness: %s" % full,
               "failed obligation: %s" % failure["key"], "", "## verifier output", failure["output"]]
-    if not m:
+    blocks = re.findall(r"```\n(.*?)```", txt, flags=re.S)
+    # prefer the block generated for the failed check
+    want = failure["description"].strip('"')[:40]
+    pick = None
+    for b in blocks:
+        if want and want in b:
+            pick = b
+            break
+    if pick is None and blocks:
+        pick = blocks[0]
+    if not pick:
         report += ["", "## concrete playback", "Kani produced no concrete test:", txt[-3000:]]
         open(out_path, "w").write("\n".join(report))
         return None, txt
+    m = re.search(r"fn (kani_concrete_playback_\w+)", pick)
     test = m.group(1)
-    # extract generated test text
-    gen = ""
+    unit = full.split("::")[-2]  # verif_kani_<unit>
+    # locate the file holding the harness module
+    target = None
     for p in glob.glob(os.path.join(scratch, crate_dir(crate), "src", "**", "*.rs"), recursive=True):
         s = open(p).read()
-        k = s.find("fn %s" % test)
-        if k >= 0:
-            a = s.rfind("/// Test generated", 0, k)
-            b = s.find("\n}\n", k)
-            gen = s[a if a >= 0 else k:b + 3]
+        marker = "mod %s {\n\tuse super::*;\n" % unit
+        if marker in s:
+            s = s.replace(marker, marker + pick + "\n", 1)
+            open(p, "w").write(s)
+            target = p
             break
+    if not target:
+        report += ["", "could not locate harness module %s" % unit]
+        open(out_path, "w").write("\n".join(report))
+        return None, txt
     cmd2 = ["cargo", "kani", "playback", "-Z", "concrete-playback", "-p", crate, "--", test]
     rc2, txt2, _ = run(cmd2, cwd=scratch, timeout=3600)
     reproduced = ("test result: FAILED" in txt2) or ("panicked at" in txt2 and rc2 != 0)
     passed = "test result: ok. 1 passed" in txt2
-    report += ["", "## concrete playback test (generated by Kani from the counterexample)", gen,
+    keep = [l for l in txt2.split("\n") if "panicked" in l or "test result" in l
+            or l.startswith("test ") or "assertion" in l or l.startswith("error")]
+    report += ["", "## concrete playback test (generated by Kani from the counterexample; concrete "
+               "values are the kani::any() results in order)", pick,
                "", "## native run of the real code on these inputs (`%s`)" % " ".join(cmd2),
-               "\n".join(l for l in txt2.split("\n") if "panicked" in l or "test result" in l
-                         or l.startswith("test ") or "assertion" in l)[:4000],
+               "\n".join(keep)[:4000] or txt2[-1500:],
                "", "reproduced: %s" % ("yes" if reproduced else ("no" if passed else "unknown"))]
     open(out_path, "w").write("\n".join(report))
     if reproduced:
